@@ -76,7 +76,7 @@ def both(line, mode, stratum):
 
 
 # which lines of which property generators are re-used: (module, makers whose first line is well conditioned, mode)
-SOURCES = [('c15', None, 'num'), ('c08', None, 'num'), ('c09', None, 'num'), ('c03', None, 'num'), ('c01', None, 'num'), ('c05', None, 'flat'),
+SOURCES = [('c20', None, 'num'), ('c15', None, 'num'), ('c08', None, 'num'), ('c09', None, 'num'), ('c03', None, 'num'), ('c01', None, 'num'), ('c05', None, 'flat'),
            ('c10', None, 'num'), ('c11', None, 'num'), ('c12', None, 'num'), ('c17', None, 'num'), ('c13', None, 'num'), ('c06', None, 'num'), ('c02', None, 'num')]
 
 
